@@ -101,7 +101,12 @@ class ObservedConnection(_sqlite3.Connection):
         w = Hooks.world
         if w is not None:
             w._on_execute(self, sql)
-        return _sqlite3.Connection.execute(self, sql, *a)
+        r = _sqlite3.Connection.execute(self, sql, *a)
+        # a connection in autocommit mode commits every write statement by itself: each one is a commit boundary
+        if w is not None and self.isolation_level is None and not self.in_transaction \
+                and sql.lstrip()[:6].upper() in ("INSERT", "UPDATE", "DELETE"):
+            w._on_commit(self, "post")
+        return r
 
     def executescript(self, script):
         w = Hooks.world
@@ -721,7 +726,13 @@ class World(object):
         return conn
 
     def send(self, name, msg):
-        return self.send_raw(name, json.dumps(msg).encode("utf-8"), msg)
+        # alternate between \uXXXX-escaped and raw UTF-8 JSON (both are what real clients send)
+        self._nsend = getattr(self, "_nsend", 0) + 1
+        try:
+            payload = json.dumps(msg, ensure_ascii=bool(self._nsend % 2)).encode("utf-8")
+        except UnicodeEncodeError:
+            payload = json.dumps(msg).encode("utf-8")
+        return self.send_raw(name, payload, msg)
 
     def send_raw(self, name, payload, msg=None):
         conn = self.conns[name]
